@@ -97,7 +97,7 @@ static size_t
 ws(char *out, int policy, vh_rng *r, int mandatory)
 {
     /* policy 0: minimal; 1: generous; 2: random */
-    static const char wsc[3] = { ' ', '\n', '\t' };
+    static const char wsc[6] = { ' ', '\n', '\t', '\r', '\v', '\f' }; /* every C whitespace character */
     size_t n = 0;
     if (policy == 0) {
         if (mandatory)
@@ -108,7 +108,7 @@ ws(char *out, int policy, vh_rng *r, int mandatory)
     } else {
         size_t k = (size_t)vh_below(r, 3) + (mandatory ? 1u : 0u);
         for (size_t i = 0; i < k; i++)
-            out[n++] = wsc[vh_below(r, 3)];
+            out[n++] = wsc[vh_below(r, 6)];
     }
     return n;
 }
